@@ -255,8 +255,10 @@ def normalize_depth_variables(
             new_variable.attrs['positive'] = 'down' if positive_down else 'up'
 
         if 'positive' in variable.attrs:
-            positive_attr = variable.attrs.get('positive')
-            data_positive_down = (positive_attr == 'down')
+            # CF attribute values are case insensitive,
+            # Convention.depth_coordinates accepts 'DOWN' and 'Up' as well.
+            positive_attr = str(variable.attrs.get('positive'))
+            data_positive_down = (positive_attr.lower() == 'down')
         else:
             # No positive attribute set.
             # This is a violation of the CF conventions,
